@@ -172,6 +172,10 @@ func (rm *ResponseManager) abortRequest(ctx context.Context, requestID graphsync
 			return nil
 		})
 	}
+	if err == queryexecutor.ErrNetworkError {
+		// remember it: the signal below is dropped when another signal is already pending
+		response.networkError = true
+	}
 	select {
 	case response.signals.ErrSignal <- err:
 	default:
@@ -378,6 +382,12 @@ func (rm *ResponseManager) finishTask(task *peertask.Task, p peer.ID, err error)
 	rm.responseQueue.TaskDone(p, task)
 	response, ok := rm.inProgressResponses[requestID]
 	if !ok {
+		return
+	}
+	if response.networkError {
+		// whatever the task ended with, its last messages were dropped by the
+		// closed response stream; there is no send left to wait for
+		rm.terminateRequest(requestID)
 		return
 	}
 	if _, ok := err.(hooks.ErrPaused); ok {
